@@ -54,9 +54,10 @@ def infoAt (s : StateA) (docRoot : Option Nat) (a : Addr) : Option NodeInfo :=
              isDocRoot := a.path.isEmpty && docRoot == some a.g, nkids := n.kids.length }
   | _ => none
 
-/-- `_prepare_new_relative`: "A node that shall be added to a tree must have neither a parent nor any sibling node" -/
+/-- `_prepare_new_relative`: "A node that shall be added to a tree must have neither a parent nor any sibling
+    node" - and it must not be the root of a document (which has neither, but lives in its document) -/
 def prepareNewRelative (offered : NodeInfo) : Option Rejection :=
-  if offered.hasParent || offered.hasNext || offered.hasPrev then some .invalidOperation else none
+  if offered.hasParent || offered.hasNext || offered.hasPrev || offered.isDocRoot then some .invalidOperation else none
 
 /-- `_validate_sibling_operation(this)` called on `target` -/
 def validateSibling (target : NodeInfo) (offeredKind : Kind) : Option Rejection :=
